@@ -361,8 +361,89 @@ func main() {
 		}
 	}
 	malformed(rep)
+	strayFraming(rep)
 	rep.Write(*out)
 }
+
+// a CR or LF that the framing requires, replaced by any other byte, must be rejected (C08: "a missing CR or LF is
+// rejected with an error rather than guessed"): systematic over the framing positions of well-formed messages
+func strayFraming(rep *hx.Report) {
+	type piece struct {
+		s    string
+		kind string // "" or the class of the LAST byte of s (a framing CR or LF)
+	}
+	type base struct {
+		name   string
+		client bool
+		ps     []piece
+	}
+	chunkedTail := []piece{{"3\r", "cr-chunk-size"}, {"\n", "lf-chunk-size"}, {"abc\r", "cr-chunk-data"}, {"\n", "lf-chunk-data"},
+		{"1;x=y\r", "cr-chunk-size-ext"}, {"\n", "lf-chunk-size"}, {"z\r", "cr-chunk-data"}, {"\n", "lf-chunk-data"}, {"0\r", "cr-last-chunk"}, {"\n", "lf-last-chunk"}}
+	bases := []base{
+		{"req-cl", false, []piece{{"POST /a HTTP/1.1\r", ""}, {"\n", "lf-start-line"}, {"Host: h\r", ""}, {"\n", "lf-header"}, {"Content-Length: 2\r", ""}, {"\n", "lf-header"},
+			{"\r", "cr-end-of-head"}, {"\n", "lf-end-of-head"}, {"ab", ""}}},
+		{"req-chunked", false, append(append([]piece{{"POST /a HTTP/1.1\r", ""}, {"\n", "lf-start-line"}, {"Transfer-Encoding: chunked\r", ""}, {"\n", "lf-header"},
+			{"\r", "cr-end-of-head"}, {"\n", "lf-end-of-head"}}, chunkedTail...), piece{"\r", "cr-tail"}, piece{"\n", "lf-tail"})},
+		{"req-chunked-trailer", false, append(append([]piece{{"POST /a HTTP/1.1\r", ""}, {"\n", "lf-start-line"}, {"Trailer: X-T\r", ""}, {"\n", "lf-header"}, {"Transfer-Encoding: chunked\r", ""}, {"\n", "lf-header"},
+			{"\r", "cr-end-of-head"}, {"\n", "lf-end-of-head"}}, chunkedTail...), piece{"X-T: v\r", ""}, piece{"\n", "lf-trailer"}, piece{"\r", "cr-tail-after-trailers"}, piece{"\n", "lf-tail"})},
+		{"resp-chunked", true, append(append([]piece{{"HTTP/1.1 200 OK\r", ""}, {"\n", "lf-start-line"}, {"Transfer-Encoding: chunked\r", ""}, {"\n", "lf-header"},
+			{"\r", "cr-end-of-head"}, {"\n", "lf-end-of-head"}}, chunkedTail...), piece{"\r", "cr-tail"}, piece{"\n", "lf-tail"})},
+	}
+	for _, b := range bases {
+		var whole []byte
+		for _, p := range b.ps {
+			whole = append(whole, p.s...)
+		}
+		if got := implRun(b.client, 0, [][]byte{whole}); got.cls != "nil" {
+			rep.Add(hx.Finding{Kind: "oracle", Property: "C08", Signature: "stray-framing-base-rejected", What: "harness: base message " + b.name + " is rejected: " + got.out,
+				Replay: map[string]interface{}{"harness": "httpparse", "stream": string(whole)}})
+			continue
+		}
+		pos := 0
+		for _, p := range b.ps {
+			pos += len(p.s)
+			if p.kind == "" {
+				continue
+			}
+			strays := []byte{'X', ' ', '\t', 0, '(', ':', '\r'}
+			if p.kind[:2] == "cr" {
+				strays = []byte{'X', ' ', '\t', 0, '(', ':', '\n'}
+			}
+			for _, sb := range strays {
+				m := append([]byte{}, whole...)
+				m[pos-1] = sb
+				m = append(m, "\r\n\r\n"...) // room for a parser that skips on
+				var bytewise [][]byte
+				for i := range m {
+					bytewise = append(bytewise, m[i:i+1])
+				}
+				for k, segs := range [][][]byte{{m}, bytewise} {
+					got := implRun(b.client, 0, segs)
+					rep.Case(fmt.Sprintf("stray/%s/%s/%d/%d", b.name, p.kind, sb, k), true)
+					rep.Stat("stray." + p.kind + "." + got.cls)
+					completes := 0
+					for _, e := range got.events {
+						if e == "C" {
+							completes++
+						}
+					}
+					if strayAllowed[p.kind] {
+						continue
+					}
+					if got.cls == "nil" || completes > 0 {
+						rep.Add(hx.Finding{Kind: "oracle", Property: "C08", Signature: "stray-byte-accepted-" + p.kind,
+							What:   fmt.Sprintf("%s: the %s at offset %d replaced by byte 0x%02x was not rejected: result %s", b.name, p.kind, pos-1, sb, got.out),
+							Replay: map[string]interface{}{"harness": "httpparse", "client": b.client, "readlimit": 0, "segments_hex": hexSegs(segs), "stream": string(m)}})
+					}
+				}
+			}
+		}
+	}
+}
+
+// positions where another byte in place of the CR is not a framing error of THIS message (the byte becomes part of a
+// value / an extension and the line ends at the next CR): no expectation
+var strayAllowed = map[string]bool{}
 
 // malformed framing metadata must be rejected, never guessed (C08), in one piece and byte at a time
 func malformed(rep *hx.Report) {
